@@ -720,10 +720,10 @@ SPECS['C20'] = dict(
           'other still works and the referent lives until the last is gone; lock-like referent: acquire(blocking, timeout) reaches the referent with exactly '
           'the caller\'s arguments and returns what the local call returns', timeout=(300, 1500)),
        twin('shared-referent-and-locks', 'harness.c20', 'h_shared_and_locks_twin', 'the scenarios are reached'),
-    ] + parts(ch('other-types', 'harness.c20', 'h_types', 'Namespace, Value, Array, Event, Queue, Lock, BoundedSemaphore proxies: histories of operations with symbolic arguments '
+    ] + parts(ch('other-types', 'harness.c20', 'h_types', 'Namespace, Value, Array, Event, Queue, Lock, BoundedSemaphore and Iterator (the proxy a method listed in method_to_typeid hands back, here of a generator) proxies: histories of operations with symbolic arguments '
                  'return or raise what the same operations on a local object of the registered class do, state equal after every step; referent disposed after the proxy',
-                 timeout=(300, 1500)), 7)
-      + parts(twin('other-types', 'harness.c20', 'h_types_twin', 'a whole history runs'), 7) + [
+                 timeout=(300, 1500)), 8)
+      + parts(twin('other-types', 'harness.c20', 'h_types_twin', 'a whole history runs'), 8) + [
        ch('thread-affine-referent', 'harness.c20', 'h_affine', 'a referent that must be released by the server thread that acquired it (what RLock/Condition are; the server serves '
           'each connection in its own thread): acquire, release an unrelated proxy at any point, release - the proxy behaves like the local object, i.e. the client thread '
           'keeps its one connection while it holds proxies', timeout=(300, 1200)),
